@@ -3,7 +3,9 @@
 //! implementation answered).  The Lean driver replays the lines on the model
 //! and on the reference specification.
 mod rng;
-mod udpstore;
+mod httpstore;
+mod store;
+mod timeunit;
 
 fn arg<T: std::str::FromStr>(args: &[String], name: &str, default: T) -> T {
     args.iter()
@@ -35,7 +37,9 @@ fn main() {
     let out = std::io::stdout();
     let mut out = std::io::BufWriter::new(out.lock());
     match family {
-        "udpstore" => udpstore::run(&mut out, seed, cases, maxops, &replay),
+        "udpstore" => store::run(&mut out, seed, cases, maxops, &replay, false),
+        "timeunit" => timeunit::run(&mut out, seed, cases),
+        "httpstore" => store::run(&mut out, seed, cases, maxops, &replay, true),
         _ => {
             eprintln!("usage: aqv <family> [--seed n] [--cases n] [--maxops n] [--replay file]");
             std::process::exit(2);
